@@ -23,6 +23,7 @@ type ReplayModel struct {
 	Obs    []string            `json:"obs,omitempty"`
 	Sched  []int               `json:"sched,omitempty"`
 	Gate   []string            `json:"gate,omitempty"` // order in which gated goroutines entered their next critical section
+	ByteRanks map[string]uint64 `json:"byte_ranks,omitempty"` // symbolic order of opaque byte strings (public keys), by term key
 }
 
 type namedInput struct {
@@ -78,6 +79,14 @@ func (in *Interp) BuildReplay(m smt.Model) *ReplayModel {
 	for k, a := range in.atomTab {
 		if strings.HasPrefix(k, "cid/") {
 			r.Ranks[strings.TrimPrefix(k, "cid/")] = ev(a.RankOf(in, "str"))
+		}
+	}
+	for k, a := range in.atomTab {
+		if strings.HasPrefix(k, "bytes/") {
+			if r.ByteRanks == nil {
+				r.ByteRanks = map[string]uint64{}
+			}
+			r.ByteRanks[strings.TrimPrefix(k, "bytes/")] = ev(a.RankOf(in, "bin"))
 		}
 	}
 	for _, o := range in.obs {
